@@ -108,7 +108,11 @@ let payload_of_tok code s = match code with
 let print_out = function
   | OSend (t, m) -> out_line (Printf.sprintf "%d SEND %s" (int_of_z t) (tok_of_message m))
   | OSendAll (t, m) -> out_line (Printf.sprintf "%d SENDALL %s" (int_of_z t) (tok_of_message m))
-  | OSignal (t, ob, sg, p) -> out_line (Printf.sprintf "%d SIG %d %s %s" (int_of_z t) (int_of_n ob) (sig_name sg) (tok_of_payload p))
+  | OSignal (t, ob, sg, p) ->
+      out_line (Printf.sprintf "%d SIG %d %s %s" (int_of_z t) (int_of_n ob) (sig_name sg) (tok_of_payload p));
+      (* the model's registration handler sets the flag and the name before it notifies: inside the slot the object
+         reports itself registered under the announced name *)
+      if sig_name sg = "hostnameChanged" then out_line (Printf.sprintf "OBS %d 1 %s" (int_of_n ob) (tok_of_payload p))
   | OPoll (ob, f, b) -> out_line (Printf.sprintf "POLL %d %s %s" (int_of_n ob) (tok_of_bool f) (tok_of_bstr b))
   | OLook rs -> out_line (Printf.sprintf "LOOKUP [%s]" (tok_of_list tok_of_record rs))
   | OOutOfFuel -> out_line "OUTOFFUEL"
